@@ -116,14 +116,20 @@ func (n *CocagoParser) Visitor(f *ast.File, fset *token.FileSet, fileName string
 			currentStruct.NodeName = x.Name.Name
 			currentStruct.Package = currentFile.PackageName
 			//currentStruct.FilePath = BuildImportName(fileName)
-			ds := currentStruct
-			dsMap[currentStruct.NodeName] = &ds
+			if dsMap[currentStruct.NodeName] == nil {
+				ds := currentStruct
+				dsMap[currentStruct.NodeName] = &ds
+			}
 		case *ast.StructType:
 			AddStructType(currentStruct.NodeName, x, &currentFile, dsMap)
 		case *ast.FuncDecl:
 			funcType = "FuncDecl"
 			currentFunc, recv := AddFunctionDecl(x, &currentFile)
 			if recv != "" {
+				if dsMap[recv] == nil {
+					// the receiver type is declared further down (or in another file of the package)
+					dsMap[recv] = &core_domain.CodeDataStruct{NodeName: recv, Package: currentFile.PackageName}
+				}
 				dsMap[recv].Functions = append(dsMap[recv].Functions, *currentFunc)
 			}
 		case *ast.FuncType:
